@@ -316,6 +316,8 @@ def discharge(ob, timeout_ms=None):
     if r == 'unsat':
         rec.status, rec.backend = 'discharged', backend
         return rec
+    if r == 'sat' and os.environ.get('PYVC_KEEP'):
+        open(os.path.join(os.environ['PYVC_KEEP'], 'sat_%d.smt2' % abs(hash(txt))), 'w').write(txt)
     if r == 'sat':
         rec.status, rec.backend = 'refuted', backend
         terms = []
@@ -361,8 +363,8 @@ class ContractUse(object):
             if sh is not None and sh.kind == 'obj' and nm in bound:
                 t = I.pytype(bound[nm])
                 want = sh.kw['cls']
-                if isinstance(want, type) and isinstance(t, type) and not issubclass(t, want):
-                    return False
+                if isinstance(want, type) and isinstance(t, type) and t is not want:
+                    return False        # exact class: subclasses may override what the contract describes
                 if not isinstance(want, type) and getattr(want, 'kind', None) == 'oneof' and isinstance(t, type):
                     if t not in want.kw['values']:
                         return False
